@@ -249,22 +249,38 @@ def oracle(universe, root, obs, table, passes):
         if td.get(K_ORIGIN) == b"management":
             mgt[art_key(nm, td)] = ver
 
+    # ---- creating (selector) edges
+    creator = {}
+    for e in edges:
+        if e["sel"]:
+            creator.setdefault(e["to"], []).append(e)
+
     # ---- clause 1: one version per artifact
     byart = {}
     for e in edges:
         byart.setdefault(art_key(e["to"][0], e["td"]), []).append(e)
     rootart = (rootn[0], b"", b"")
-    variants = {}
-    for k in list(byart) + [rootart]:
-        variants.setdefault(k[0], set()).add(k[1:])
+
+    def created_for(node, k):
+        """the node was created for artifact key k (or is the root and k is the root's key)"""
+        if node == rootn:
+            return k == rootart
+        return any(art_key(c["to"][0], c["td"]) == k for c in creator.get(node, []))
+
     for k, es in byart.items():
         vs = set(e["to"][1] for e in es)
         if k == rootart:
             vs.add(rootn[1])
         if len(vs) > 1:
-            known = "F-C07-1" if len(variants[k[0]]) > 1 else None
+            # class F-C07-1: the surplus versions are reached only through nodes created for ANOTHER artifact key
+            # (the shared-node shortcut); the edges to nodes created for k itself agree on one version
+            own = set(e["to"][1] for e in es if created_for(e["to"], k))
+            if k == rootart:
+                own.add(rootn[1])
+            shared = [e for e in es if not created_for(e["to"], k)]
+            known = "F-C07-1" if (len(own) <= 1 and shared) else None
             hits.append(Hit("one_version", "two versions of one artifact (name, classifier, type) in the graph",
-                            {"artifact": k, "versions": sorted(vs)}, known))
+                            {"artifact": k, "versions": sorted(vs), "versions_of_nodes_created_for_it": sorted(own)}, known))
 
     # ---- clause 3: range edges inside their range
     for e in edges:
@@ -276,11 +292,7 @@ def oracle(universe, root, obs, table, passes):
             hits.append(Hit("range_edges", "edge whose requirement the harness has no semver answer for / does not parse",
                             {"from": e["from"], "to": e["to"], "req": e["req"]}))
 
-    # ---- creating edges, exclusion sets along the creating path
-    creator = {}
-    for e in edges:
-        if e["sel"]:
-            creator.setdefault(e["to"], []).append(e)
+    # ---- exclusion sets along the creating path
     excl = {rootn: set()}
     order_guard = 0
     pending = [n for n in nodes if n != rootn]
@@ -377,11 +389,19 @@ def oracle(universe, root, obs, table, passes):
         first = min(es, key=lambda e: (bfs[e["from"]], decl_index(e)))
         bad = [e for e in es if e["to"][1] != first["req"]]
         if bad:
-            known = "F-C07-2" if passes > 1 else None
-            hits.append(Hit("nearest", "all requirements met on the artifact are soft but the selected version is not the one "
-                            "demanded by the declaration nearest to the root",
-                            {"artifact": k, "nearest_declaration": (first["from"], first["req"]),
-                             "selected": sorted(set(e["to"][1] for e in es)), "passes": passes}, known))
+            # class F-C07-2 (decided in run_universes with the model's requirement lists): after a retry the
+            # requirement list of the artifact differs from what one pass over the final graph accumulates
+            expected = []
+            for e in sorted(es, key=lambda e: (bfs[e["from"]], decl_index(e))):
+                if e["req"] not in expected:
+                    expected.append(e["req"])
+            h = Hit("nearest", "all requirements met on the artifact are soft but the selected version is not the one "
+                    "demanded by the declaration nearest to the root",
+                    {"artifact": k, "nearest_declaration": (first["from"], first["req"]),
+                     "selected": sorted(set(e["to"][1] for e in es)), "passes": passes},
+                    "F-C07-2?" if passes > 1 else None)
+            h.expected_reqs = expected
+            hits.append(h)
 
     # ---- clause 4: a range declaration of a traversed node never vanishes silently
     errset = set(errors)
@@ -457,6 +477,7 @@ def run_universes(ctx, universes, label):
     live = [c for c in cases if c is not None]
     impl2, model = ctx.correspond("maven", live, label=label, compare=same_obs)
     it = iter(zip(impl2, model))
+    pending = []
     for (ui, root), p, c in zip(metas, parsed, cases):
         if p is None:
             continue
@@ -486,13 +507,38 @@ def run_universes(ctx, universes, label):
         for h in oracle(u, root, obs, table, passes):
             ctx.count("oracle_hit:" + h.clause)
             inp = {"kind": "maven_rec", "arg": sx([u, list(root)]), "clause": h.clause}
-            if h.known and agree:
+            viol = dict(what=h.what, input=inp, observed={"detail": lib.jsonable(h.detail), "graph": sx(obs)},
+                        required="clause %s of C07" % h.clause)
+            if h.known == "F-C07-2?" and agree:
+                pending.append((c, h, viol))
+            elif h.known and h.known != "F-C07-2?" and agree:
                 ctx.known_hits[h.known] = ctx.known_hits.get(h.known, 0) + 1
             else:
-                ctx.violation(h.what, inp, observed={"detail": lib.jsonable(h.detail), "graph": sx(obs)},
-                              required="clause %s of C07" % h.clause)
+                ctx.violation(**viol)
         if len(ctx.samples) < 3 and obs[0] == b"ok" and len(obs[1]) >= 5:
             ctx.sample({"kind": "maven_rec", "root": lib.jsonable(list(root)), "universe": sx(u)[:600], "graph": sx(obs)[:600]})
+    classify_stale(ctx, pending)
+
+
+def classify_stale(ctx, pending):
+    """F-C07-2: model and implementation agree on the graph, the resolution needed a retry, and the model's final
+    requirement list of the artifact is not the list one pass over the final graph accumulates (it holds
+    requirements, or an order, left over from an abandoned pass).  Anything else is a new violation."""
+    if not pending:
+        return
+    reqs = ctx.model("maven_reqs", [c for c, _, _ in pending])
+    for (c, h, viol), line in zip(pending, reqs):
+        stale = False
+        try:
+            for name, cls, typ, lst in parse_sx(line):
+                if (name, cls, typ) == tuple(h.detail["artifact"]):
+                    stale = list(lst) != list(h.expected_reqs)
+        except Exception:
+            stale = False
+        if stale:
+            ctx.known_hits["F-C07-2"] = ctx.known_hits.get("F-C07-2", 0) + 1
+        else:
+            ctx.violation(**viol)
 
 
 def check_known(ctx):
